@@ -426,7 +426,7 @@ func countKind(h []HOp, k string) int {
 	return n
 }
 
-const rule = "Case = one run of 2-32 client goroutines calling SamehadaDB.ExecuteSQL concurrently (GOMAXPROCS 2/4/16, in-memory and file mode, SQL- and catalog-created table t(id,g1,g2,v) with 4-60 rows and overlapping groupings g1 = id%2, g2 = id/2): family A (4-32 clients, disjoint groups) = multi-row UPDATE t SET v=<unique> WHERE g1=<x> and SELECT id,v WHERE g1=<x> (in half of the runs 50-100% of these statements carry a never-true OR branch, which forces the sequential-scan path instead of the index range scan) -> inside one answer all rows of a group carry one value and an overwritten value never comes back to the same client; family B (4-8 clients, overlapping groupings g1/g2, 8-15 calls each) -> the recorded history (call/return stamps from a shared logical clock) must be linearizable against a multi-register in which an update writes its whole group at once (so a reader seeing a group half-updated, a lost or doubled update, or a stale read after return all fail), checked with porcupine; family C = concurrent INSERTs of unique ids and single-row updates on 2-3 hot rows (internal abort/retry frequent) -> every id exactly once, every row's final value written by an update of that row. Every reply must have its own statement's shape (column count, ids of the requested group). A watchdog reports a run in which no call completed for 120 s. Non-trivial = a run with at least two calls overlapping in real time, one of them a write."
+const rule = "Case = one run of 2-32 (every fourth run of families A/C: 48-96, i.e. more callers than the request manager's 24 worker slots) client goroutines calling SamehadaDB.ExecuteSQL concurrently (GOMAXPROCS 2/4/16, in-memory and file mode, SQL- and catalog-created table t(id,g1,g2,v) with 4-60 rows and overlapping groupings g1 = id%2, g2 = id/2): family A (4-32 clients, disjoint groups) = multi-row UPDATE t SET v=<unique> WHERE g1=<x> and SELECT id,v WHERE g1=<x> (in half of the runs 50-100% of these statements carry a never-true OR branch, which forces the sequential-scan path instead of the index range scan) -> inside one answer all rows of a group carry one value and an overwritten value never comes back to the same client; family B (4-8 clients, overlapping groupings g1/g2, 8-15 calls each) -> the recorded history (call/return stamps from a shared logical clock) must be linearizable against a multi-register in which an update writes its whole group at once (so a reader seeing a group half-updated, a lost or doubled update, or a stale read after return all fail), checked with porcupine; family C = concurrent INSERTs of unique ids and single-row updates on 2-3 hot rows (internal abort/retry frequent) -> every id exactly once, every row's final value written by an update of that row. Every reply must have its own statement's shape (column count, ids of the requested group). A watchdog reports a run in which no call completed for 120 s. Non-trivial = a run with at least two calls overlapping in real time, one of them a write."
 
 var assumptions = []string{
 	"schedules are whatever the Go runtime produces; not reproducible by seed (the recorded history is the reproducible unit; replay re-checks it and re-runs the workload)",
@@ -455,6 +455,11 @@ func TestConcurrent(t *testing.T) {
 		}
 		if r.Family != "C" {
 			r.SeqPct = []int{0, 0, 50, 100}[rng.Intn(4)]
+		}
+		if r.Family != "B" && rng.Intn(4) == 0 {
+			// many more callers than worker slots (the request manager runs at most 24 statements at a time): long queues
+			// while statements are aborted and retried
+			r.Clients, r.OpsPer = 48+rng.Intn(49), 4+rng.Intn(6)
 		}
 		st := &stats{}
 		f, hist := execute(r, st)
